@@ -58,11 +58,11 @@ def run(ctx, col, tier):
     col.rule("R-UNIF", "the row permutation is applied to the container's whole key set, every "
              "column indexed by the permutation component of one renumbering call, ids/parent ids "
              "overwritten by that call's new topology, topology passed as (ids, parent ids)",
-             floor=8)
+             floor=8, shape=True)
     col.rule("R-COUNTER", "DFS renumbering: one pop -> one slot; the new id counter is read for "
              "the slot and as the children's parent before its single unconditional increment and "
              "is never decreased; children are selected by parent id == popped id; new ids are "
-             "0..n-1; the row index is old-id -> old-position", floor=12, exhaustive=True)
+             "0..n-1; the row index is old-id -> old-position", floor=12, exhaustive=True, shape=True)
     col.rule("R-CG", "renumbering is recursion-free", floor=2)
     col.assumptions += ["single-rooted input (asserted by the code)", "numpy fancy indexing copies"]
     col.not_decided += ["bijectivity as a statement about values", "idempotence up to sibling order"]
